@@ -124,7 +124,10 @@ func newApplierEnv(seed int64, td uint64, variant int) *applierEnv {
 		// (the applier parses ANCHORED operations: a time validator, which judges requests that are not anchored
 		// yet, has no say - the one installed refuses everything)
 		applier: operationapplier.New(p, operationparser.New(p, operationparser.WithAnchorTimeValidator(refusingTimeValidator{}), operationparser.WithAnchorOriginValidator(refusingOriginValidator{})), doccomposer.New()),
-		pubOps:  []*operation.AnchoredOperation{{Type: operation.TypeCreate, UniqueSuffix: "pub", CanonicalReference: "p0", TransactionTime: 1}},
+		// (published operations that are NOT in anchoring order, one canonical reference twice: the list is the caller's)
+		pubOps: []*operation.AnchoredOperation{{Type: operation.TypeUpdate, UniqueSuffix: "pub", CanonicalReference: "p2", TransactionTime: 5, TransactionNumber: 1},
+			{Type: operation.TypeCreate, UniqueSuffix: "pub", CanonicalReference: "p0", TransactionTime: 1},
+			{Type: operation.TypeUpdate, UniqueSuffix: "pub", CanonicalReference: "p2", TransactionTime: 3, TransactionNumber: 2}},
 		unpub:   []*operation.AnchoredOperation{{Type: operation.TypeUpdate, UniqueSuffix: "unpub", TransactionTime: 2}},
 	}
 }
@@ -793,6 +796,12 @@ func applierReplay(args []string) {
 					rec := &recordingTimeValidator{}
 					parser := operationparser.New(env.proto, operationparser.WithAnchorTimeValidator(rec))
 					op := env.conc.Build(&ed.Op)
+					// (the same bytes are first read the way anchored operations are, on the same parser: what that call learnt
+					// does not spare the request the time validator)
+					_, _ = parser.GetRevealValue(op.OperationRequest)
+					_, _ = parser.ParseOperation("did:test", op.OperationRequest, true)
+					rec.called = false
+
 					_, perr := parser.Parse("did:test", op.OperationRequest)
 					atomic.AddInt64(&tvChecks, 1)
 
